@@ -8,7 +8,7 @@
 #include "vh.h"
 #include <inttypes.h>
 
-typedef struct { char kind; int type; const char *name; const char *sval; long ival; int replace; } op_t;
+typedef struct { char kind; int type; const char *name; const char *sval; long ival; int replace; int pretty; } op_t;
 /* kind: 'S' set, 'G' get, 'D' del; type: jwt_value_type_t; for STR sval NULL means NULL pointer */
 #define J JWT_VALUE_JSON
 #define I JWT_VALUE_INT
@@ -85,7 +85,7 @@ static void do_op(const tgt_t *t, const op_t *op)
 		case I: jwt_set_GET_INT(&v, op->name); break;
 		case S: jwt_set_GET_STR(&v, op->name); break;
 		case B: jwt_set_GET_BOOL(&v, op->name); break;
-		default: jwt_set_GET_JSON(&v, op->name); break;
+		default: jwt_set_GET_JSON(&v, op->name); v.pretty = op->pretty; break;
 		}
 		rc = t->get(t->obj, &v);
 		printf("null,0,%d,%d,", (int)rc, (int)v.error);
@@ -110,15 +110,16 @@ static void do_op(const tgt_t *t, const op_t *op)
 static char bigstr[70000];
 static void random_op(op_t *op)
 {
-	static const char *NAMES[] = { "a", "b", "c", "exp", "a b", "\xc3\xa9", "", NULL, "alg", "nested" };
+	static const char *NAMES[] = { "a", "b", "c", "exp", "a b", "\xc3\xa9", "", NULL, "alg", "nested", "r", "t", "n", "i" };
 	static const char *JS[] = { "{\"a\":1}", "{\"b\":{\"c\":[1,2,{\"d\":null}]},\"a\":\"s\"}", "[]", "[1,\"two\",3.5]", "{}", "{\"r\":1.5,\"t\":true,\"n\":null}",
 		"{\"a\":9223372036854775807,\"b\":-9223372036854775808}", "{", "", "nul", "5", "\"s\"", "{\"x\":1,\"x\":2}", "{\"a\":{\"a\":{\"a\":{}}}}",
-		"{\"exp\":1,\"alg\":\"none\"}", "[[[[[[]]]]]]", "{\"a\":1} x", " {\"c\":2} " };
+		"{\"exp\":1,\"alg\":\"none\"}", "[[[[[[]]]]]]", "{\"a\":1} x", " {\"c\":2} ",
+		"{\"r\":1.0,\"i\":3,\"t\":false,\"n\":null}", "{\"r\":-0.0,\"n\":[],\"i\":\"3\"}", "{\"t\":1,\"r\":1e2,\"i\":0}" };
 	static const long INTS[] = { 0, 1, -1, INT64_MAX, INT64_MIN, 2147483648L, 1700000000L };
 	static const char *STRS[] = { "", "x", "a longer string value", "\xc3\xa9\xf0\x9f\x98\x80", "with \"quotes\" and \\ backslash", "line\nbreak\ttab", NULL, bigstr };
 	unsigned k = (unsigned)vh_below(&rng, 10);
 	memset(op, 0, sizeof(*op));
-	op->name = NAMES[vh_below(&rng, 10)];
+	op->name = NAMES[vh_below(&rng, 14)];
 	if (vh_below(&rng, 3)) op->name = NAMES[vh_below(&rng, 3)];	/* collide often */
 	op->replace = (int)vh_below(&rng, 2);
 	if (k < 5) {
@@ -127,12 +128,13 @@ static void random_op(op_t *op)
 		switch (op->type) {
 		case I: op->ival = vh_below(&rng, 2) ? INTS[vh_below(&rng, 7)] : (long)vh_rand(&rng); break;
 		case S: op->sval = STRS[vh_below(&rng, 8)]; break;
-		case B: op->ival = (long)vh_below(&rng, 2); break;
-		default: op->sval = JS[vh_below(&rng, 18)]; break;
+		case B: { static const long BV[] = { 0, 1, 0, 1, 2, -1, 256, 65536, INT32_MIN }; op->ival = BV[vh_below(&rng, 9)]; } break;
+		default: op->sval = JS[vh_below(&rng, 21)]; break;
 		}
 	} else if (k < 8) {
 		op->kind = 'G';
 		op->type = 1 + (int)vh_below(&rng, 4);
+		op->pretty = (int)vh_below(&rng, 3) == 0;
 	} else
 		op->kind = 'D';
 }
